@@ -48,8 +48,6 @@ FLOORS = {'quick': {'__nontrivial__': 3000, 'planned': 2500, 'refused': 1400, 's
                        'stmt:Insert': 12000, 'stmt:Update': 4000, 'stmt:Delete': 4000, 'stmt:CreateTable': 8000,
                        'cat:integrations:dicts': 8000, 'cat:metadata:dict': 5500}}
 N = {'quick': 1200, 'thorough': 20000}
-if __import__('os').environ.get('VF_C09_N'):
-    N['quick'] = int(__import__('os').environ['VF_C09_N'])
 
 KINDS = ('internal-error', 'numbering', 'forward-ref', 'dangling-ref', 'bad-sub-ref', 'foreign-step', 'bad-ref',
          'named-ref', 'dangling-step', 'wrong-last-step', 'empty-plan')
